@@ -324,10 +324,6 @@ func (w *world) Run(t *rt.Tape, trace bool) *core.Result {
 	first := t.Choose(rt.SGen, 2) // which side closes first (relies on Close to flush)
 	a := &side{name: "A"}
 	b := &side{name: "B"}
-	a.sendOps = genOps(t, 0, smallAB, first != 0)
-	b.sendOps = genOps(t, 1, smallBA, first != 1)
-	a.recvOps = b.sendOps
-	b.recvOps = a.sendOps
 	// Buffer knobs (1 case in 3): the connection's internal buffers shrink to a
 	// few dozen bytes, so that every field and every payload crosses the write
 	// ring and the read window many times (the shipped 64 KiB / 1 MiB / 3 buffers
@@ -343,7 +339,14 @@ func (w *world) Run(t *rt.Tape, trace bool) *core.Result {
 		rt.SetKnob("p2p.readBufSize", rb)
 		knobs = fmt.Sprintf("numBuffers=%d writeBufSize=%d readBufSize=%d", nb, wb, rb)
 		res.Reach["knobs.small-buffers"]++
+		if wb < 4096 || rb < 1000 {
+			smallAB, smallBA = true, true // megabyte payloads through 16-byte buffers cost minutes
+		}
 	}
+	a.sendOps = genOps(t, 0, smallAB, first != 0)
+	b.sendOps = genOps(t, 1, smallBA, first != 1)
+	a.recvOps = b.sendOps
+	b.recvOps = a.sendOps
 	// Fault mode (1 case in 6): one Write of A's transport fails once without
 	// moving anything (a write timeout); the transport works again afterwards.
 	// The stream then has a hole, so the only claim left is the narrow one that
